@@ -164,8 +164,9 @@ def g_intforms(c, ops, with_modes=False):
     for mi, mode in enumerate(MODES if with_modes else ['RoundHalfEven']):
         calls.append({'ev': 'set', 't': 1, 'mode': mode})
         for t in INT_TYPES9:
-            for ii in range(1, 13):
-                iv = jdec((int_class(t, ii), 0))
+            for ii in range(1, 14 if t == 'i128' else 13):
+                # class 13 (i128 only): i128::MIN itself - a legal integer operand although no Decimal has that coefficient
+                iv = jdec((-2**127 if ii == 13 else int_class(t, ii), 0))
                 for xc in x_classes_for(t):
                     for pos in (0, 1):
                         for op in ops:
@@ -673,7 +674,8 @@ INT_RANGE = {'u8': (0, 2**8 - 1), 'i8': (-2**7, 2**7 - 1), 'u16': (0, 2**16 - 1)
              'i32': (-2**31, 2**31 - 1), 'u64': (0, 2**64 - 1), 'i64': (-2**63, 2**63 - 1), 'i128': (-(2**127 - 1), 2**127 - 1)}
 X_CLASSES = [(0, 0), (0, 3), (1, 0), (10, 1), (1000, 3), (-1, 0), (15, 1), (-25, 1), (12345, 3), (7, 18), (-3, 17),
              (2**127 - 1, 0), (-(2**127 - 1), 2), (10**18, 18), (5 * 10**17, 18), (17014118346046923173168730371588410572, 1),
-             (-100, 2), (-700, 2), (700, 2), (-10**18, 18)]       # integral values written with trailing zeros (equal to the integer classes -1, -7, 7)
+             (-100, 2), (-700, 2), (700, 2), (-10**18, 18),
+             (-(2**126), 0), (-(2**126), 2), (2**64, 5), (-(2**127 - 1), 0), (2**126, 1)]       # x op small integer lands exactly on -2^127 / 2^127       # integral values written with trailing zeros (equal to the integer classes -1, -7, 7)
 
 
 def int_class(ty, ii):
